@@ -213,10 +213,10 @@ implEvaluate(SImpl impl, AbLogic cond)
 	
 	SImpl newImpl = NULL;
 
-	if (ablogIsTrue(cond))
+	if (!impl)
 		return impl;
 
-	if (!impl)
+	if (ablogIsTrue(cond))
 		return impl;
 
 	if (DEBUG(impl)) {
